@@ -35,4 +35,19 @@ def cdDelay (P : CdParams) (items : List CdItem) : Nat :=
       (if d = 0 ∨ cdPeriod P i.left < d then cdPeriod P i.left else d)
     else d) 0
 
+/-- the item is counting down -/
+def CdItem.running (i : CdItem) : Prop := i.channel ≠ 255 ∧ i.left > 0
+
+instance (i : CdItem) : Decidable i.running := by unfold CdItem.running; exact inferInstance
+
+/-- the whole callback over the item table; `pub` = supla_esp_state.Time2Left, the remaining time published (and saved
+    for a restart) per channel: a running item writes its new remaining time to the entry of its own channel -/
+def cdTickAll (now : Nat) : List CdItem → List Nat → List CdItem × List Nat
+  | [], pub => ([], pub)
+  | i :: is, pub =>
+    let r := i.tick now
+    let pub' := if i.running ∧ i.channel < pub.length then pub.set i.channel r.1.left else pub
+    let rest := cdTickAll now is pub'
+    (r.1 :: rest.1, rest.2)
+
 end SuplaVerif
